@@ -147,6 +147,8 @@ def _gen_redirect(rng, i):
     return {"family": "redirect", "kind": "redirect", "host": host, "raw_path": raw_path, "query": query, "root_path": root,
             "scope_type": stype, "scheme": scheme, "http_version": rng.choice(["1.1", "2"]), "cfg_host": rng.choice([None, None, "forced.example"]),
             "ext": rng.random() < 0.85,
+            # (h11_pass_raw_headers: header names reach the scope in the client's spelling; only HTTP/1.1 has one)
+            "host_name": rng.choice([b"host", b"host", b"Host", b"HOST"]),
             # earlier requests served by the same middleware instance (other virtual hosts, a forged Host): each request stands alone
             "prior": [{"host": rng.choice(["first.example", "evil.example:81", "example.com"]), "scope_type": rng.choice(["http", "websocket"]),
                        "secure": rng.random() < 0.3} for _ in range(rng.choice([0, 0, 1, 2]))]}
@@ -519,7 +521,7 @@ def _redirect(case, tally):
     mw = HTTPToHTTPSRedirectMiddleware(inner, case["cfg_host"])
     scope = {"type": case["scope_type"], "scheme": case["scheme"], "http_version": case["http_version"], "path": "/ignored",
              "raw_path": case["raw_path"], "query_string": case["query"], "root_path": case["root_path"],
-             "headers": [(b"user-agent", b"x"), (b"host", case["host"].encode())], "extensions": {"websocket.http.response": {}} if case["ext"] else {}}
+             "headers": [(b"user-agent", b"x"), (case.get("host_name", b"host") if case["http_version"] == "1.1" else b"host", case["host"].encode())], "extensions": {"websocket.http.response": {}} if case["ext"] else {}}
     before = copy.deepcopy(scope)
     sent = []
 
